@@ -161,3 +161,27 @@ pub fn digest_stub<T: AsRef<[u8]>>(buf: T) -> Hash {
     while i < b.len() && i < 4 { out[1 + i] = b[i]; i += 1; }
     Hash::from_bytes(out)
 }
+
+// ------------------------------------------------------------------------------------------------
+// CBOR decoding: `decode_cbor(reader)` is replaced (under Kani only) by the model codec's decoder
+// reading the bytes the harness registered in DECODE_INPUT (the generic `Read` plumbing of the real
+// function is not the subject). Natively the real ciborium decoder runs on the real bytes.
+// ------------------------------------------------------------------------------------------------
+pub static mut DECODE_INPUT: Vec<u8> = Vec::new();
+pub fn set_decode_input(bytes: &[u8]) { unsafe { DECODE_INPUT = bytes.to_vec(); } }
+pub fn decode_cbor_stub<T: for<'a> serde::Deserialize<'a>, R: std::io::Read>(_reader: R) -> Result<T, p2panda_core::cbor::DecodeError> {
+    let bytes: &[u8] = unsafe { &*std::ptr::addr_of!(DECODE_INPUT) };
+    match crate::mcodec::from_slice::<T>(bytes) {
+        Ok(v) => Ok(v),
+        Err(_) => Err(p2panda_core::cbor::DecodeError::Syntax(0)),
+    }
+}
+
+/// Kani stub for `VerifyingKey::from_bytes`/TryFrom: every 32-byte string decodes (over-approximates
+/// acceptance; signature validity is decided by the idealised `verify`). No point decompression.
+pub fn vk_from_bytes_stub(bytes: &[u8; 32]) -> Result<VerifyingKey, p2panda_core::IdentityError> {
+    let k = VerifyingKey::default();
+    let p = k.as_bytes().as_ptr() as *mut u8;
+    unsafe { std::ptr::copy_nonoverlapping(bytes.as_ptr(), p, 32); }
+    Ok(k)
+}
